@@ -50,6 +50,10 @@ class ListTransformer(converter.Base):
 
   def visit_List(self, node):
     node = self.generic_visit(node)
+    if not isinstance(node.ctx, ast.Load):
+      # A list display that is assigned to (or deleted) is a target pattern,
+      # not a list value.
+      return node
     template = """
       ag__.new_list(elements)
     """
